@@ -2,6 +2,7 @@ package props
 
 import (
 	"bytes"
+	"context"
 	"fmt"
 	"sort"
 
@@ -63,6 +64,25 @@ func runC08(c *fw.Case) {
 		var history [][]model.Op
 		for b := 0; b < nBlocks; b++ {
 			ops := g.Block(6)
+			if c.R.Intn(5) == 0 { // a big block with few distinct ordinals: ties among many operations
+				save := g.MaxOrd
+				g.MaxOrd = 1 + c.R.Intn(2)
+				ops = nil
+				for len(ops) < 14+c.R.Intn(20) {
+					ops = append(ops, g.Op())
+				}
+				g.MaxOrd = save
+				c.Count("big_blocks", 1)
+			}
+			if b > 0 && c.R.Intn(3) == 0 { // the engine executes blocks on stores just loaded from a snapshot file (tier2 jobs)
+				target.st.Reset()
+				if fk, ok := target.st.(*store.FullKV); ok {
+					if nf, err := rs.SaveLoadFull(context.Background(), cfg, fk, uint64(1000+b)); err == nil {
+						target.st = nf
+						c.Count("reloads_from_snapshot", 1)
+					}
+				}
+			}
 			history = append(history, ops)
 			pre := rawContent(target.st)
 			if err := rs.RunBlock(p, target.st, uint64(b), ops); err != nil {
